@@ -37,6 +37,7 @@ type ruleT struct {
 	Actions  []string `json:"actions"`
 	Severity string   `json:"severity,omitempty"`
 	Multi    bool     `json:"multi,omitempty"`
+	MultiTr  []string `json:"multi_tr,omitempty"` // transformation list used with multiMatch (default: lowercase)
 	Link     *linkT   `json:"link,omitempty"`
 }
 
@@ -96,6 +97,9 @@ var actionMenu = [][]string{
 	{"setvar:tx.s=+1", "setvar:tx.s=+%{tx.s}"}, // s is set by the first action before it is read
 	{"setvar:tx.s=+1", "setvar:tx.t=+1"},
 	{"setvar:tx.u=%{tx.t}", "setvar:tx.t=+1", "setvar:tx.s=+1"},
+	{"setvar:tx.neg=-3", "setvar:tx.s=+%{tx.neg}"},  // signed operand copied by a macro: s + (-3)
+	{"setvar:tx.neg=-3", "setvar:tx.s=-%{tx.neg}"},  // s - (-3)
+	{"setvar:tx.s=+%{tx.t}", "setvar:tx.s=-%{tx.t}", "setvar:tx.s=+1"},
 }
 
 var targets = []string{"ARGS_GET", "ARGS_GET:a", "REQUEST_HEADERS:X-H"}
@@ -113,6 +117,11 @@ func ruleMenu(thorough bool) []ruleT {
 			out = append(out, ruleT{Target: t, Actions: a, Severity: sev})
 			if i < 5 || thorough {
 				out = append(out, ruleT{Target: t, Actions: a, Multi: true})
+			}
+			if i < 2 {
+				// pipelines that come back to an earlier value: each stage is still one evaluation
+				out = append(out, ruleT{Target: t, Actions: a, Multi: true, MultiTr: []string{"uppercase", "lowercase"}})
+				out = append(out, ruleT{Target: t, Actions: a, Multi: true, MultiTr: []string{"lowercase", "uppercase", "lowercase"}})
 			}
 			if i < 4 || thorough {
 				out = append(out, ruleT{Target: t, Actions: a, Severity: sev, Link: &linkT{Target: "ARGS_GET:b", Action: "setvar:tx.l=+1"}})
@@ -139,7 +148,14 @@ func conf(rules []ruleT) string {
 			acts = append(acts, "pass")
 		}
 		if r.Multi {
-			acts = append(acts, "multiMatch", "t:lowercase")
+			acts = append(acts, "multiMatch")
+			trs := r.MultiTr
+			if trs == nil {
+				trs = []string{"lowercase"}
+			}
+			for _, t := range trs {
+				acts = append(acts, "t:"+t)
+			}
 		}
 		if r.Severity != "" {
 			acts = append(acts, "severity:'"+r.Severity+"'")
@@ -240,13 +256,23 @@ var sevNum = map[string]int{"CRITICAL": 2, "NOTICE": 5}
 
 // evalLink evaluates one rule or link: per matched value, MATCHED_VAR* are set
 // and the non-disruptive actions run once. Returns the rendered match data.
-func (s *state) evalLink(target string, multi bool, capture bool, actions []string, msgT string) []string {
+func (s *state) evalLink(target string, multi []string, capture bool, actions []string, msgT string) []string {
 	var out []string
 	for _, m := range selectValues(target, rq(s)) {
 		vals := []string{m.val}
-		if multi {
-			if l := strings.ToLower(m.val); l != m.val {
-				vals = append(vals, l)
+		cur := m.val
+		for _, t := range multi {
+			nv := cur
+			switch t {
+			case "lowercase":
+				nv = strings.ToLower(cur)
+			case "uppercase":
+				nv = strings.ToUpper(cur)
+			}
+			// every intermediate value that differs from its predecessor is evaluated (also one seen before)
+			if nv != cur {
+				vals = append(vals, nv)
+				cur = nv
 			}
 		}
 		for _, v := range vals {
@@ -303,12 +329,19 @@ func model(rules []ruleT, r reqT) (tx map[string]string, sev int, itr int, fired
 		if rl.Link != nil {
 			starterMsg = "" // the starter's message is expanded after the chain completes
 		}
-		md := s.evalLink(rl.Target, rl.Multi, capture, rl.Actions, starterMsg)
+		var multi []string
+		if rl.Multi {
+			multi = rl.MultiTr
+			if multi == nil {
+				multi = []string{"lowercase"}
+			}
+		}
+		md := s.evalLink(rl.Target, multi, capture, rl.Actions, starterMsg)
 		if len(md) == 0 {
 			continue
 		}
 		if rl.Link != nil {
-			lmd := s.evalLink(rl.Link.Target, false, false, []string{rl.Link.Action}, "")
+			lmd := s.evalLink(rl.Link.Target, nil, false, []string{rl.Link.Action}, "")
 			if len(lmd) == 0 {
 				continue
 			}
